@@ -34,7 +34,9 @@ package commission
 
 //@ # ASSUMED: the current price table (lazily decoded); all entries are present and non-negative
 //@ ghost commissionCache() int
+//@ ghost curPrices(c *Commission) *Price
 //@ func (*Commission).GetCommissions
 //@   trusted
+//@   ensures result == curPrices(c)
 //@   ensures result != nil && result.PayloadByte != nil && result.FailedTx != nil && result.PayloadByte.val >= 0 && result.FailedTx.val >= 0
 //@   modifies commissionCache
